@@ -922,14 +922,17 @@ pub fn budget(stop: usize) {
     vassert!(gh.total_child_polls <= BUDGET, "C13:more child polls in one call than the budget");
     let s = snap(&mut f, 1, t);
     vassert!(gh.task_wakes[1 - t] == 0, "C01:a task waker that was never registered was invoked");
-    if stop > BUDGET {
+    // how often the child asks to be polled; the code's budget constant itself is
+    // not part of any property: only "bounded, and not forgotten when cut short"
+    let want = if stop == 0 { 1 } else { stop };
+    if gh.total_child_polls < want {
         // stopped early, the child is still queued: the task must have been told
-        vassert!(gh.total_child_polls == BUDGET, "C13:poll gave up before its budget was used");
         vassert!(s.qlen == 1, "C01:self-woken child lost from the ready queue");
         vassert!(gh.task_wakes[t] >= 1, "C01:budget exhausted with a queued child, task not woken");
+        vassert!(gh.task_wakes[t] >= 1, "C13:poll stopped early with a notified child still queued, task not woken");
         vcover!(true, "cover:budget_exhausted");
     } else {
-        vassert!(gh.total_child_polls == if stop == 0 { 1 } else { stop }, "C12:child polled more often than it was notified");
+        vassert!(gh.total_child_polls == want, "C12:child polled more often than it was notified");
         vassert!(s.qlen == 0, "C14:ready queue not drained");
         vassert!(s.qlen == 0, "C12:a slot is queued although nobody invoked its waker since its last poll");
         // woken only as a consequence of a child-waker invocation
@@ -974,11 +977,13 @@ pub fn budget_many() {
     let mut cx = Context::from_waker(&w);
     let r = Pin::new(&mut f).poll_next(&mut cx);
     vassert!(matches!(r, Poll::Pending), "C02:a pending child produced an item");
-    vassert!(gh.total_child_polls == BUDGET, "C13:the per-poll budget of child polls was not respected");
-    vassert!(gh.task_wakes[t] >= 1, "C13:poll stopped at its budget with notified children still queued, task not woken");
-    vassert!(gh.task_wakes[t] >= 1, "C01:poll stopped at its budget with notified children still queued, task not woken");
+    vassert!(gh.total_child_polls <= BUDGET, "C13:the per-poll budget of child polls was not respected");
+    if gh.total_child_polls < N {
+        vassert!(gh.task_wakes[t] >= 1, "C13:poll stopped at its budget with notified children still queued, task not woken");
+        vassert!(gh.task_wakes[t] >= 1, "C01:poll stopped at its budget with notified children still queued, task not woken");
+        vcover!(true, "cover:budget_exhausted");
+    }
     vassert!(gh.task_wakes[1 - t] == 0, "C01:a task waker that was never registered was invoked");
-    vcover!(true, "cover:budget_exhausted");
     core::mem::forget(f);
 }
 
@@ -1010,5 +1015,65 @@ pub fn stale_many() {
     vassert!(gh.total_child_polls == 0, "C05:a vacated slot was polled");
     vassert!(gh.task_wakes[0] == 0 && gh.task_wakes[1] == 0, "C14:an empty collection woke a task");
     vcover!(true, "cover:stale_many");
+    core::mem::forget(f);
+}
+
+/// a child that wakes itself on every poll (`victim == false`) or sleeps and
+/// counts its polls (`victim == true`)
+pub struct Busy {
+    pub victim: bool,
+}
+static mut VICTIM_POLLS: usize = 0;
+
+impl core::future::Future for Busy {
+    type Output = u8;
+    fn poll(self: Pin<&mut Self>, cx: &mut Context<'_>) -> Poll<u8> {
+        let gh = g();
+        gh.total_child_polls += 1;
+        if self.victim {
+            unsafe { VICTIM_POLLS += 1 };
+        } else {
+            gh.child_wakes += 1;
+            cx.waker().wake_by_ref();
+        }
+        Poll::Pending
+    }
+}
+
+/// No starvation at the budget boundary: BUDGET children that wake themselves
+/// on every poll are queued AHEAD of a woken victim (position BUDGET+1). One
+/// poll: bounded work, the task is woken, and the victim - if the call did not
+/// reach it - is now at the FRONT of the ready queue (the children polled in
+/// this call queued up behind it), so the next call polls it first. A victim
+/// that is sent to the back again would be overtaken on every call.
+pub fn budget_fifo() {
+    const N: usize = BUDGET + 1;
+    gh::reset();
+    #[cfg(futures_buffered_verif_model)]
+    v::model_waker::set_big_queue(true);
+    unsafe { VICTIM_POLLS = 0 };
+    let gh = g();
+    let t = nd::below(2) as usize;
+    let w = gh::task_waker(t);
+    let mut q = [QEntry { slot: 0, inflight: false }; N];
+    let mut k = 0;
+    while k < N {
+        q[k].slot = k;
+        k += 1;
+    }
+    let mut f: FuturesUnorderedBounded<Busy> = v::fub_from_parts(N, |i| Ok(Busy { victim: i == N - 1 }), N, N, &q, &w, false);
+    gh.task_wakes = [0; 2];
+    let mut cx = Context::from_waker(&w);
+    let r = Pin::new(&mut f).poll_next(&mut cx);
+    vassert!(matches!(r, Poll::Pending), "C02:a pending child produced an item");
+    vassert!(gh.total_child_polls <= BUDGET + 1, "C13:the per-poll budget of child polls was not respected");
+    vassert!(gh.task_wakes[t] >= 1, "C13:poll stopped with notified children still queued, task not woken");
+    let polled = unsafe { VICTIM_POLLS };
+    if polled == 0 {
+        let s = snap(&mut f, N, t);
+        vassert!(s.qlen == N, "C01:a notified child was lost from the ready queue");
+        vassert!(s.q[0].slot == N - 1, "C13:a woken child that was not reached lost its place in the ready queue to children polled in this call (overtaken on every call: starvation)");
+        vcover!(true, "cover:victim_waits_at_front");
+    }
     core::mem::forget(f);
 }
